@@ -143,6 +143,22 @@ def boxRefusesOnClosedChannel : Bool := Gen.Proto.boxRefusesOnClosedChannel
 /-- does boxing an object (`byRef`: by reference) put an entry into `_local_objects`? -/
 def boxRegisters (chanClosed byRef : Bool) : Bool := byRef && !(chanClosed && boxRefusesOnClosedChannel)
 
+/-- `_cleanup`'s last step, MEASURED on the live class (`Gen.Proto.cleanupFailsPending`): every request still waiting for
+its answer is completed with EOFError - `AsyncResult.ready` is True, `error` is True, its `add_callback` functions have
+run once - instead of being dropped unfired.  `fails`: that measured fact.  A request still in `pending` on a side whose
+`_cleanup` has run was registered before it (afterwards `issue` never registers one: the channel is closed), so it is one
+of those.  (A result whose OWN timeout had already passed ignores the completion by `AsyncResult.__call__`'s first line
+and stays "expired": that is AsyncResult's rule, outside this automaton, which does not know the clock of a request nobody
+is waiting for; the correspondence leaves those out.) -/
+def completedByEndWith (fails : Bool) (l : Life) (s : Nat) : Bool := l.pending.contains s && l.cleaned && fails
+
+def completedByEnd (l : Life) (s : Nat) : Bool := completedByEndWith Gen.Proto.cleanupFailsPending l s
+
+/-- `AsyncResult.ready` of request `s` (own timeout not passed): resolved already, or completed by the end -/
+def resultReadyWith (fails : Bool) (l : Life) (s : Nat) : Bool := !l.pending.contains s || completedByEndWith fails l s
+
+def resultReady (l : Life) (s : Nat) : Bool := resultReadyWith Gen.Proto.cleanupFailsPending l s
+
 inductive Ev where
   /-- `close()` is called: returns at once if already closed (this is also `closeAgain`), else sets the flag -/
   | closeBegin
